@@ -1017,4 +1017,71 @@ theorem ems_force_pos_of_solves (F d Lp Lc St kT : ℝ) (hLp : 0 < Lp) (hLc : 0 
   linarith
 
 
+
+/-! ### the masked array form of `calc_cubic_root` -/
+
+section vec
+variable {β γ δ ε : Type}
+
+theorem zipWith_map_map (f : γ → δ → ε) (g : β → γ) (h : β → δ) (l : List β) :
+    List.zipWith f (l.map g) (l.map h) = l.map fun x => f (g x) (h x) := by
+  induction l with
+  | nil => rfl
+  | cons x xs ih => simp only [List.map_cons, List.zipWith_cons_cons, ih]
+
+theorem zipWith3'_map {ζ : Type} (f : γ → δ → ε → ζ) (g : β → γ) (h : β → δ) (i : β → ε) (l : List β) :
+    zipWith3' f (l.map g) (l.map h) (l.map i) = l.map fun x => f (g x) (h x) (i x) := by
+  induction l with
+  | nil => rfl
+  | cons x xs ih => simp only [List.map_cons, zipWith3', ih]
+
+/-- reading two arrays through the same mask and combining = combining and reading through the mask -/
+theorem zipWith_gather (c : γ → δ → ε) (m : β → Bool) (f1 : β → γ) (f2 : β → δ) (l : List β) :
+    List.zipWith c (gather (l.map m) (l.map f1)) (gather (l.map m) (l.map f2))
+      = gather (l.map m) (l.map fun x => c (f1 x) (f2 x)) := by
+  induction l with
+  | nil => rfl
+  | cons x xs ih =>
+    simp only [List.map_cons]
+    cases hm : m x
+    · simp only [gather, ih]
+    · simp only [gather, List.zipWith_cons_cons, ih]
+
+/-- NumPy's masked write of values computed from the masked read: position by position -/
+theorem scatter_gather (m : β → Bool) (f h : β → γ) (l : List β) :
+    scatter (l.map m) (gather (l.map m) (l.map f)) (l.map h)
+      = l.map fun x => if m x then f x else h x := by
+  induction l with
+  | nil => rfl
+  | cons x xs ih =>
+    simp only [List.map_cons]
+    cases hm : m x
+    · simp only [gather, scatter, ih]; simp
+    · simp only [gather, scatter, ih]; simp
+
+end vec
+
+section
+variable {α : Type} [RealLike α] [Ops α]
+
+/-- the masked array algorithm computes, at every position, the scalar `calcCubicRoot` — for any number type
+    whose `selGe0` is the plain branch on `det ≥ 0` -/
+theorem calcCubicRootVec_pointwise
+    (hsel : ∀ det A B : α, Ops.selGe0 det A B = if RealLike.le (0.0 : α) det then A else B)
+    (l : List (α × α × α)) (k : Nat) :
+    calcCubicRootVec (l.map (·.1)) (l.map (·.2.1)) (l.map (·.2.2)) k
+      = l.map fun t => calcCubicRoot t.1 t.2.1 t.2.2 k := by
+  unfold calcCubicRootVec
+  simp only [zipWith_map_map, zipWith3'_map, List.map_map, Function.comp_def]
+  rw [zipWith_gather cardano, zipWith_gather (fun p q => trigRoot p q k)]
+  rw [scatter_gather (fun t : α × α × α => RealLike.le (0.0 : α) (disc (depP t.1 t.2.1) (depQ t.1 t.2.1 t.2.2)))]
+  rw [scatter_gather (fun t : α × α × α => !RealLike.le (0.0 : α) (disc (depP t.1 t.2.1) (depQ t.1 t.2.1 t.2.2)))]
+  rw [zipWith_map_map]
+  apply List.map_congr_left
+  intro t _
+  simp only [calcCubicRoot, depressedRoot, hsel]
+  cases RealLike.le (0.0 : α) (disc (depP t.1 t.2.1) (depQ t.1 t.2.1 t.2.2)) <;> simp
+
+end
+
 end Verif.C12
